@@ -56,6 +56,12 @@ func (e *Env) queryFunctions() (queries, decoders []*ssa.Function) {
 			// a helper that runs only on behalf of the decoders: what it writes is attributed to
 			// them through the transitive effects (and would be attributed to a query if one ever called it)
 			continue
+		case !e.reachableFromAPI()[fn]:
+			// not one of the operations the property names (scoring, severity, validity, encoding, string
+			// conversion, accessors, report construction) nor reachable from one: an additional entry point
+			// such as UnmarshalText or Clone. Writes to package-level state are still reported for every
+			// function of the module by table-immutability.
+			continue
 		default:
 			queries = append(queries, fn)
 		}
@@ -154,6 +160,8 @@ var pureStd = map[string]bool{
 	"math/big": true, "cmp": true, "iter": true, "html": true, "encoding/json": true, "encoding/hex": true, "encoding/base64": true,
 	"path": true, "unicode/utf16": true, "container/list": true, "hash/fnv": true, "html/template": true, "io/ioutil": true, "strings/": true,
 	"github.com/goark/errs": true, "golang.org/x/text/language": true,
+	"encoding": true, "encoding/xml": true, "encoding/csv": true, "encoding/binary": true, "text/tabwriter": true, "hash": true, "hash/crc32": true,
+	"crypto/sha256": true, "crypto/md5": true, "database/sql/driver": true, "unicode/norm": true, "golang.org/x/text/unicode/norm": true,
 }
 
 var impureStd = map[string]string{
@@ -292,7 +300,7 @@ func c15(e *Env) {
 	// the data tables the leaf summaries read (a nil or run-time-filled table makes results history dependent)
 	e.tableModelProblems(func(t *facts.Table) bool { return t.IsData() })
 	c.Floor("pure-query", 250)
-	c.Floor("table-immutability", 120)
+	c.Floor("table-immutability", 40)
 	c.Floor("determinism", 12)
 	c.Floor("constructor-fresh", 10)
 	c.Floor("package-vars", 130)
@@ -309,7 +317,7 @@ func c16(e *Env) {
 	e.determinism("no-concurrency-primitives", true)
 	e.templatePrivate("private-template")
 	c.Floor("pure-query", 250)
-	c.Floor("table-immutability", 120)
+	c.Floor("table-immutability", 40)
 	c.Floor("package-vars", 130)
 	c.Floor("private-template", 2)
 }
